@@ -29,6 +29,7 @@ import (
 	"runtime/debug"
 	"runtime/pprof"
 	"sort"
+	"strconv"
 	"strings"
 	"sync"
 	"sync/atomic"
@@ -163,8 +164,9 @@ func runHistory(spec histSpec, t target, heap bool) (out outcome) {
 		if firstOver < 0 {
 			firstOver = call
 		}
-		// keep feeding until it is clear whether the growth is bounded (a second cap somewhere) or not
-		if ret > 4*bound+(1<<20) && !heap {
+		// keep feeding until it is clear whether the growth is bounded (a second cap somewhere) or not;
+		// a decoder without any documented or wire maximum has no second cap to wait for
+		if (ret > 4*bound+(1<<20) || lim.maxFrame == 0) && !heap {
 			fire("retained-memory", "unbounded-growth", "retained payload bytes grow without bound",
 				fmt.Sprintf("%d bytes retained after call %d (bound %d = %d (%s) + largest packet %d; first exceeded at call %d)",
 					ret, call, bound, capBytes, lim.source, maxPayload, firstOver))
@@ -188,6 +190,10 @@ func runHistory(spec histSpec, t target, heap bool) (out outcome) {
 			nextWalk = call // (the sampling distance depends on the largest packet)
 		}
 		units, err := dec.decode(pkt)
+		if debugCalls > 0 && call < debugCalls {
+			fmt.Printf("debug: call %d seq %d ts %d marker %v payload %d bytes [% x...] -> %d units, err %v, retained %d\n", call, pkt.SequenceNumber, pkt.Timestamp,
+				pkt.Marker, len(pkt.Payload), pkt.Payload[:min(len(pkt.Payload), 6)], len(units), err, retainedBytes(dec.state))
+		}
 		if err != nil {
 			out.errs++
 		} else if units != nil {
@@ -252,7 +258,7 @@ func runHistory(spec histSpec, t target, heap bool) (out outcome) {
 			return
 		}
 	}
-	if firstOver >= 0 && out.finding == nil && out.maxRetained > 4*out.bound+(1<<20) {
+	if firstOver >= 0 && out.finding == nil && (out.maxRetained > 4*out.bound+(1<<20) || lim.maxFrame == 0) {
 		fire("retained-memory", "unbounded-growth", "retained payload bytes grow without bound",
 			fmt.Sprintf("up to %d bytes retained (bound %d = %d (%s) + largest packet %d; first exceeded at call %d)",
 				out.maxRetained, out.bound, capBytes, lim.source, maxPayload, firstOver))
@@ -284,6 +290,9 @@ func runHistory(spec histSpec, t target, heap bool) (out outcome) {
 }
 
 var heapBase int64
+
+// debugCalls: C08_DEBUG=n prints the first n calls of a replayed history.
+var debugCalls, _ = strconv.Atoi(os.Getenv("C08_DEBUG"))
 
 // guarded runs one history in its own goroutine under the watchdog (monitor (b)).
 func guarded(spec histSpec, t target, heap bool) (outcome, bool) {
@@ -452,9 +461,12 @@ func plan(ts []target, thorough bool) []histSpec {
 			add(t, sh, 60000, rep(300, 4000))
 		}
 		// accumulation shapes: enough payload to tell "bounded above the documented maximum" from
-		// "unbounded" (6x the bound; thorough: also at least 64 MiB / up to 200000 packets)
+		// "unbounded" (4.6x the bound; thorough: also at least 80 MiB / up to 200000 packets)
 		for _, sz := range []int{1400, 60000} {
 			add(t, shStartMiddles, sz, accLen(t, sz, thorough))
+			if sz == 1400 && !thorough {
+				continue // (quick: the other accumulation shapes with large packets only)
+			}
 			add(t, shUnitsNoMarker, sz, accLen(t, sz, thorough))
 			if t.lim.unitCap > 0 {
 				add(t, shFillThenFrag, sz, accLen(t, sz, thorough))
@@ -491,7 +503,7 @@ func accLen(t target, sz int, thorough bool) int {
 			capBytes = 1 << 20
 		}
 	}
-	n := 6*capBytes/sz + 300
+	n := 23*capBytes/(5*sz) + 300 // 4.6 x the cap: beyond the 4x that separates "bounded" from "unbounded"
 	if thorough {
 		n = max(n, min((80<<20)/sz, 200000))
 	}
